@@ -49,12 +49,13 @@ struct RcOutcome { bool ok; int successes; std::string message; };
 // that the last failing (i.e. most shrunk) case is what gets committed.
 template <typename Testable>
 RcOutcome rc_run(const std::string& name, uint64_t seed, int max_success, Reporter& rep,
-                 Testable&& testable, int max_size = 100) {
+                 Testable&& testable, int max_size = 100, bool disable_shrinking = false) {
   rc::detail::TestParams params;
   params.seed = seed;
   params.maxSuccess = max_success;
   params.maxSize = max_size;
   params.maxDiscardRatio = 20;
+  params.disableShrinking = disable_shrinking;
   rc::detail::TestMetadata md;
   md.id = name;
   md.description = name;
